@@ -80,9 +80,13 @@ int main(int argc, char** argv) {
     c36::TmpCleaner cleaner;
     const std::string p = a.prop;
     const int nq = (int)a.getInt("queries", 6);
+    // The class cycles (shape kind, region, mesh class, file format ...) are entered at a phase derived from the seed, so
+    // that the workers of one run (same case indices, different seeds) cover different cells; the random content of a
+    // case still comes from <seed, case index> alone.
+    const long phase = (long)(a.seed % 100003ULL);
     return vh::runCases(c, [&](long i, vh::Rng& r) {
-        if (p == "C34") checkC34(c, i, r, nq, (int)a.getInt("kind", -1));
-        else if (p == "C36") checkC36(c, i, r, a);
+        if (p == "C34") checkC34(c, i + phase, r, nq, (int)a.getInt("kind", -1));
+        else if (p == "C36") checkC36(c, i + phase, r, a);
         else { fprintf(stderr, "mon_geom: unknown property %s\n", p.c_str()); exit(2); }
     });
 }
